@@ -107,7 +107,7 @@ pub fn run(ctx: &mut Ctx) -> bool {
             blackbox::run_c03(ctx);
         }
         "C08" => {
-            ctx.rule = "Cases are UCI sessions against the real binary: a position (game-like, or a checkmate / stalemate reached by playing finishing moves from near-mate constructions) + one `go` (slices 0-250 ms, movestogo >= 1 or absent) ; the `bestmove` (legal move, or `0000`/`(none)` when the game is over) must arrive within plan + 500 ms where plan is the engine's own calculate_time_slice for that command; then `isready` must be answered within 1 s, a fresh `position` + `go` must be served with a legal move, `quit` must end the process, and no thread may have panicked (stderr). A latency miss is re-measured twice serially; only three misses make a violation; a missing answer is detected after plan + 10 s. Non-trivial = terminal position, or a slice > 0; distinct by (position, go).".into();
+            ctx.rule = "Cases are UCI sessions against the real binary: a position (game-like, or a checkmate / stalemate reached by playing finishing moves from near-mate constructions) + one `go` (slices 0-250 ms, movestogo >= 1 or absent) ; the `bestmove` (legal move, or `0000`/`(none)` when the game is over) must arrive within plan + 500 ms where plan is the engine's own calculate_time_slice for that command; then `isready` must be answered within 1 s, a fresh `position` + `go` must be served with a legal move and `quit` must end the process (a panic message on stderr is quoted as context in a report but is by itself C07's subject, not C08's). A latency miss is re-measured twice serially; only three misses make a violation; a missing answer is detected after plan + 10 s. Non-trivial = terminal position, or a slice > 0; distinct by (position, go).".into();
             ctx.assumptions = vec!["positions with material unreachable in play are outside the domain (quiescence has no clock check)".into(), "schedules are sampled (<= 8 engines at a time)".into()];
             blackbox::run_c08(ctx);
         }
